@@ -33,6 +33,24 @@ CLAIMED = {
     ref="DESIGN.md section 7 C06",
     note="Trusted: Coq kernel + vm_compute; tr_expand/skel translators; extraction + drivers; snprintf semantics. NULL path (execv(NULL,..)) is outside the domain.",
     technique="Coq proof (loop invariant, induction over histories) + function-level and history correspondence"),
+
+ "C04": dict(
+    text="Coq theorems over the output/dispatch/action model with constants (modes, flags, printf formats) regenerated from src/output/*.c and the action/dispatch "
+         "skeletons regenerated from clang's AST: C04_one_record (exactly one record, at the configured sink, equal to the documented frame, for every message, output, "
+         "argument, ident, priority, pid), C04_devlog_frame, C04_none_when_dropped/_empty, C04_at_most_one. Tied by a system-level correspondence in which the harness owns "
+         "all seven sinks and the recorder drains them at exec entry (also with a simulated successful exec), compared with the extracted models' prediction.",
+    ref="DESIGN.md section 7 C04",
+    note="Trusted: Coq kernel + vm_compute; tr_output/tr_expand/skel translators; extraction + drivers; harness. Assumes the sink accepts the operations (C03 covers failures); "
+         "stderr unbuffered; kernel datagram size limits outside the model; error-logging-on extra records not modelled (error logging off in the run).",
+    technique="Coq proof over regenerated output constants/skeletons + sink-sampling system-level correspondence"),
+ "C17": dict(
+    text="Coq theorems C17_one_write (append-mode open without truncation, exactly one write(2) per framed record, from the regenerated open flags / write pattern of "
+         "fileoutput.c) and C17_whole_records (for any initial content, any number of writers, any record sizes and EVERY interleaving of their write calls the file is the old "
+         "content followed by a permutation of whole records; by induction over the merge). Tied by strace of the real output for sizes around every block boundary up to 1 MiB "
+         "over pre-existing contents; concurrent writer stress as search.",
+    ref="DESIGN.md section 7 C17",
+    note="Trusted: Coq kernel; tr_output; strace. ASSUMED, not proved: the kernel executes each O_APPEND write to a local regular file as one indivisible append; short writes outside the model (partial).",
+    technique="Coq proof (permutation under interleaving) + strace syscall-pattern correspondence"),
 }
 
 PENDING_REASON = "not claimed yet: the Coq model and its tie for this property are not built at this commit (planned, see DESIGN.md section 12)"
